@@ -468,11 +468,12 @@ def finish(prop, tier, seed, results, listing_errors, t0, quiet, repo, canaries=
     # an input on which a clause of that harness fails on the real code.  A hit is a violation with a native witness; no hit leaves
     # the harness undecided (never "held").
     und_names = sorted({h for h, l, w in undecided})
+    degraded = []
     if und_names and not os.environ.get("PYVC_NO_CROSSCHECK"):
         reqs = []
         for r in results:
             if r["name"] in und_names and not r.get("opts_native_only"):
-                reqs.append({"module": r["module"], "name": r["name"], "count": 4000, "seed": seed, "budget_s": 15})
+                reqs.append({"module": r["module"], "name": r["name"], "count": 400000, "seed": seed, "budget_s": 15})
         try:
             p = subprocess.run([NATIVE_PY, os.path.join(VERIF, "helper", "native.py"), "fuzz", "--repo", repo],
                                input="\n".join(json.dumps(q) for q in reqs) + "\n", capture_output=True, text=True,
@@ -484,6 +485,15 @@ def finish(prop, tier, seed, results, listing_errors, t0, quiet, repo, canaries=
             hits = dict(o.get("failed") or {})
             if o.get("escaped"):
                 hits.setdefault("no-escape", o["escaped"].get("args"))
+            if not hits and int(o.get("ran") or 0) >= 200:
+                # Bounded stand-in (never counted as proved): the contract no longer fits the code it was written for (renamed /
+                # restructured beyond what the engine re-binds, construct outside the modelled subset, time-out), the real code was
+                # run on `ran` seeded random inputs of the harness's domain and every clause held.
+                why = "; ".join(sorted({w[:160] for h, l, w in undecided if h == q["name"]}))[:400]
+                degraded.append({"id": q["name"] + "/*", "status": "bounded-native", "module": q["module"],
+                                 "bounded": f"{o['ran']} seeded random inputs (seed {q['seed']}) run on the real code, all clauses held; "
+                                            f"{o.get('precondition_false', 0)} inputs outside the precondition", "why_not_proved": why})
+                undecided = [(h, l, w) for h, l, w in undecided if h != q["name"]]
             for label, args in hits.items():
                 ident = f"{q['name']}/{label}"
                 kf = match_known(known, prop, ident, None)
@@ -511,7 +521,8 @@ def finish(prop, tier, seed, results, listing_errors, t0, quiet, repo, canaries=
             "trusted_base": sorted(trusted) + TRUSTED_ALWAYS,
             "samples": samples or [{"obligation": o["id"], "status": o["status"]} for o in obligations[:5]],
             "obligation_list": obligations,
-            "bounded_obligations": bounded,
+            "bounded_obligations": bounded + degraded,
+            "degraded_to_bounded": degraded,
             "harnesses": [{"name": r["name"], "module": r["module"], "paths": r.get("paths"), "wall_s": r.get("wall_s"),
                            "verifies": r.get("verifies"), "solver_calls": r.get("solver_calls")} for r in results],
             "functions_executed": hashes,
@@ -535,7 +546,7 @@ def finish(prop, tier, seed, results, listing_errors, t0, quiet, repo, canaries=
     json.dump(evidence, open(os.path.join(evdir, f"{prop}.json"), "w"), indent=1, default=str)
 
     if not quiet:
-        print(f"property {prop} tier {tier}: {n_dis}/{n_obl} obligations discharged, {len(bounded)} bounded, "
+        print(f"property {prop} tier {tier}: {n_dis}/{n_obl} obligations discharged, {len(bounded) + len(degraded)} bounded, "
               f"{len(violations)} violated, {len(undecided)} undecided, {len(errors)} checker errors, {wall:.1f}s")
         for o in obligations + bounded:
             if o["status"] != "discharged":
@@ -544,6 +555,8 @@ def finish(prop, tier, seed, results, listing_errors, t0, quiet, repo, canaries=
         print(line)
     for ident, rp, confirmed in violations:
         print(f"VIOLATION property={prop} replay={rp} obligation={ident}" + ("" if confirmed else " no-failing-input-found"))
+    for d in degraded:
+        print(f"DEGRADED property={prop} obligation={d['id']} not proved on this code ({d['why_not_proved'][:160]}); bounded stand-in: {d['bounded'][:120]}")
     for h, l, w in undecided:
         print(f"UNDECIDED property={prop} obligation={h}/{l} {w[:200]}")
     for e in errors:
